@@ -729,3 +729,285 @@ func (c *Ctx) kindsFull(fn *ssa.Function, recv ssa.Value, at ssa.Instruction, al
 	}
 	return ks, p
 }
+
+func init() {
+	p := Properties["C10"]
+	p.Rules = append(p.Rules, Rule{"C10/convert-guarded", ruleC10ConvertGuarded})
+	p8 := Properties["C08"]
+	p8.Rules = append(p8.Rules, Rule{"C08/convert-guarded", func(c *Ctx) { runAs(c, "C08/convert-guarded", "C10/convert-guarded", ruleC10ConvertGuarded) }})
+}
+
+// reflect.Value.Convert panics when the value is not convertible to the target type. The package converts map
+// keys of string kind to the key type of another map: that is safe only if the target type is known to be of
+// string kind too, so every Convert whose target is a type obtained at run time (T.Key(), v.Type() ...) must be
+// dominated by a test of that target type's kind.
+func ruleC10ConvertGuarded(c *Ctx) {
+	const rule = "C10/convert-guarded"
+	n := 0
+	seen := map[*ssa.Function]bool{}
+	for _, cn := range []string{"EV", "DEF", "EQ", "RES", "INF"} {
+		for _, fn := range c.Closure(rule, cn).Sorted() {
+			if seen[fn] || !c.P.InPkg(fn) {
+				continue
+			}
+			seen[fn] = true
+			core.EachInstr(fn, func(i ssa.Instruction) {
+				call, ok := i.(*ssa.Call)
+				if !ok || core.CalleeKey(&call.Call) != "reflect.Value.Convert" || len(call.Call.Args) != 2 {
+					return
+				}
+				n++
+				target := call.Call.Args[1]
+				tested := false
+				for _, g := range guardsOf(call) {
+					if kindTestOf(g.Cond, target, 4) {
+						tested = true
+					}
+				}
+				// a helper whose contract is "the key type has kind string": the test is at every call site, on the
+				// same type expression (m.Type().Key()) of the argument passed for the helper's parameter
+				if !tested && fn.Parent() == nil {
+					root, chain := typeExpr(target)
+					if p, isP := root.(*ssa.Parameter); isP && p.Parent() == fn {
+						tested = c.kindTestedAtCallers(fn, p, chain, 3)
+					}
+				}
+				c.R.Check(tested, rule, core.FuncName(fn)+":Convert@"+c.pos(call), c.pos(call), "the kind of the target type is tested before the conversion", "reflect.Value.Convert is applied with a target type whose kind is not tested on the way: when the two maps' key types are, say, a string type and int, the conversion panics instead of the comparison (or lookup) failing")
+			})
+		}
+	}
+	c.R.Floor(rule, "reflect.Value.Convert calls", n, 1)
+}
+
+// kindTestOf: cond compares T.Kind() with a constant, for a T that shares its source with target.
+func kindTestOf(cond ssa.Value, target ssa.Value, depth int) bool {
+	if cond == nil || depth == 0 {
+		return false
+	}
+	switch x := cond.(type) {
+	case *ssa.BinOp:
+		for _, pair := range [][2]ssa.Value{{x.X, x.Y}, {x.Y, x.X}} {
+			kc, ok := pair[0].(*ssa.Call)
+			if !ok || !kc.Call.IsInvoke() || kc.Call.Method.Name() != "Kind" {
+				continue
+			}
+			if _, isK := pair[1].(*ssa.Const); !isK {
+				continue
+			}
+			if kc.Call.Value == target || sharesSource(kc.Call.Value, target) {
+				return true
+			}
+		}
+		return kindTestOf(x.X, target, depth-1) || kindTestOf(x.Y, target, depth-1)
+	case *ssa.UnOp:
+		return kindTestOf(x.X, target, depth-1)
+	case *ssa.Phi:
+		for _, e := range x.Edges {
+			if kindTestOf(e, target, depth-1) {
+				return true
+			}
+		}
+	}
+	return false
+}
+
+// typeExpr decomposes a reflect.Type expression X.Type().Key().Elem()... into its root reflect.Value (or Type) and the selector chain.
+func typeExpr(v ssa.Value) (ssa.Value, string) {
+	chain := ""
+	for depth := 0; depth < 6; depth++ {
+		call, ok := v.(*ssa.Call)
+		if !ok {
+			break
+		}
+		if call.Call.IsInvoke() {
+			chain = "." + call.Call.Method.Name() + chain
+			v = call.Call.Value
+			continue
+		}
+		if core.CalleeKey(&call.Call) == "reflect.Value.Type" {
+			chain = ".Type" + chain
+			v = call.Call.Args[0]
+			continue
+		}
+		break
+	}
+	return v, chain
+}
+
+// kindTestOfExpr: cond tests the kind of root<chain> (e.g. instance.Type().Key()) against a constant.
+func kindTestOfExpr(cond ssa.Value, root ssa.Value, chain string, depth int) bool {
+	if cond == nil || depth == 0 {
+		return false
+	}
+	switch x := cond.(type) {
+	case *ssa.BinOp:
+		for _, pair := range [][2]ssa.Value{{x.X, x.Y}, {x.Y, x.X}} {
+			kc, ok := pair[0].(*ssa.Call)
+			if !ok || !kc.Call.IsInvoke() || kc.Call.Method.Name() != "Kind" {
+				continue
+			}
+			if _, isK := pair[1].(*ssa.Const); !isK {
+				continue
+			}
+			for _, src := range append(traceSources(kc.Call.Value), kc.Call.Value) {
+				r, ch := typeExpr(src)
+				if ch == chain && (r == root || sharesSource(r, root)) {
+					return true
+				}
+			}
+		}
+		return kindTestOfExpr(x.X, root, chain, depth-1) || kindTestOfExpr(x.Y, root, chain, depth-1)
+	case *ssa.UnOp:
+		return kindTestOfExpr(x.X, root, chain, depth-1)
+	case *ssa.Phi:
+		for _, e := range x.Edges {
+			if kindTestOfExpr(e, root, chain, depth-1) {
+				return true
+			}
+		}
+	}
+	return false
+}
+
+// kindTestedAtCallers: every static call site of fn tests the kind of <arg for p><chain> before the call,
+// or forwards its own parameter, whose callers are examined in turn.
+func (c *Ctx) kindTestedAtCallers(fn *ssa.Function, p *ssa.Parameter, chain string, depth int) bool {
+	if depth == 0 || !c.P.OnlyStaticCallers(fn) {
+		return false
+	}
+	idx := -1
+	for k, q := range fn.Params {
+		if q == p {
+			idx = k
+		}
+	}
+	sites := c.P.CallIndex().Sites[fn]
+	if idx < 0 || len(sites) == 0 {
+		return false
+	}
+	for _, site := range sites {
+		if idx >= len(site.Common().Args) {
+			return false
+		}
+		arg := site.Common().Args[idx]
+		okSite := false
+		for _, g := range guardsOf(site) {
+			if kindTestOfExpr(g.Cond, arg, chain, 4) {
+				okSite = true
+			}
+		}
+		if !okSite && conditionalKeyKindTest(site, arg, chain) {
+			okSite = true
+		}
+		// a call inside a closure on a captured variable: what was established where the closure is created
+		if !okSite && site.Parent().Parent() != nil {
+			if ld, isLd := arg.(*ssa.UnOp); isLd && ld.Op == token.MUL {
+				if cell := resolveCell(ld.X); cell != nil && cell.Parent() != site.Parent() {
+					parent := cell.Parent()
+					var mc ssa.Instruction
+					var pl ssa.Value
+					for _, f := range core.WithAnon(parent) {
+						core.EachInstr(f, func(j ssa.Instruction) {
+							if m, ok := j.(*ssa.MakeClosure); ok && m.Fn == outermostClosureIn(site.Parent(), parent) && j.Parent() == parent {
+								mc = m
+							}
+						})
+					}
+					core.EachInstr(parent, func(j ssa.Instruction) {
+						if l2, ok := j.(*ssa.UnOp); ok && l2.Op == token.MUL && resolveCell(l2.X) == cell && pl == nil {
+							pl = l2
+						}
+					})
+					reassigned := false
+					for _, sv := range cellStores(cell) {
+						if _, isParam := sv.(*ssa.Parameter); !isParam {
+							if c2, isCall := sv.(*ssa.Call); !isCall || core.CalleeKey(&c2.Call) != "reflect.Value.Elem" {
+								reassigned = true
+							}
+						}
+					}
+					if mc != nil && pl != nil && !reassigned {
+						for _, g := range guardsOf(mc) {
+							if kindTestOfExpr(g.Cond, pl, chain, 4) {
+								okSite = true
+							}
+						}
+						if !okSite && conditionalKeyKindTest(mc, pl, chain) {
+							okSite = true
+						}
+					}
+				}
+			}
+		}
+		if !okSite {
+			// the caller forwards its own parameter
+			srcs := traceSources(arg)
+			if len(srcs) == 1 {
+				if q, isP := srcs[0].(*ssa.Parameter); isP && q.Parent() == outermost(site.Parent()) && site.Parent().Parent() == nil {
+					okSite = c.kindTestedAtCallers(site.Parent(), q, chain, depth-1)
+				}
+			}
+		}
+		if !okSite {
+			return false
+		}
+	}
+	return true
+}
+
+// conditionalKeyKindTest: the caller establishes "if arg is a map, its key type has kind string" before the site:
+// a test M of arg's kind against Map dominates the site, and on M's map outcome every path to the site passes a
+// test K of the kind of arg<chain> whose other outcome does not reach the site (it returns an error).
+func conditionalKeyKindTest(site ssa.Instruction, arg ssa.Value, chain string) bool {
+	fn := site.Parent()
+	found := false
+	core.EachInstr(fn, func(i ssa.Instruction) {
+		K, ok := i.(*ssa.If)
+		if !ok || !kindTestOfExpr(K.Cond, arg, chain, 4) {
+			return
+		}
+		for _, g := range guardsLocal(K) {
+			bo, ok := g.Cond.(*ssa.BinOp)
+			if !ok || !((bo.Op == token.EQL && g.Pol) || (bo.Op == token.NEQ && !g.Pol)) {
+				continue
+			}
+			isMapTest := false
+			for _, pair := range [][2]ssa.Value{{bo.X, bo.Y}, {bo.Y, bo.X}} {
+				kc, ok1 := pair[0].(*ssa.Call)
+				k, ok2 := pair[1].(*ssa.Const)
+				if ok1 && ok2 && core.CalleeKey(&kc.Call) == "reflect.Value.Kind" && (kc.Call.Args[0] == arg || sharesSource(kc.Call.Args[0], arg)) {
+					if kv, ok := constInt(k); ok && kv == int64(kMap) {
+						isMapTest = true
+					}
+				}
+			}
+			if !isMapTest {
+				continue
+			}
+			M, ok := g.At.(*ssa.If)
+			if !ok || !M.Block().Dominates(site.Block()) {
+				continue
+			}
+			// one outcome of K must be unable to reach the site
+			excl := false
+			for _, succ := range K.Block().Succs {
+				if succ != site.Block() && !core.Reachable(succ, site.Block(), map[*ssa.BasicBlock]bool{K.Block(): true}) {
+					excl = true
+				}
+			}
+			mapSucc := M.Block().Succs[g.Succ]
+			if excl && mustPass(mapSucc, map[*ssa.BasicBlock]bool{K.Block(): true}, map[*ssa.BasicBlock]bool{site.Block(): true}) {
+				found = true
+			}
+		}
+	})
+	return found
+}
+
+// outermostClosureIn: the closure nested directly in parent that contains fn (fn itself when its parent is parent).
+func outermostClosureIn(fn, parent *ssa.Function) *ssa.Function {
+	for fn != nil && fn.Parent() != parent {
+		fn = fn.Parent()
+	}
+	return fn
+}
